@@ -52,7 +52,7 @@ def gen(c):
     # KDF: one-shot, and the incremental object for every (customisation empty or not) x (declared length class)
     for kind in ('kdf', 'kdfa'):
         for cu in (0, 6):
-            for ol in (0, 32, 33, 8191, 8192, 1 << 21, (1 << 24) + 3, 1 << 29, (1 << 29) + 5):
+            for ol in [0, 32, 33, 8191, 8192, 1 << 21, (1 << 24) + 3, (1 << 28) - 1, 1 << 28, (1 << 28) + (1 << 27) + 5, (1 << 29) - 1, 1 << 29, (1 << 29) + 5] + ([1 << k for k in range(6, 28)] if th else []):
                 p.case(['sp.init kind=%s obj=1 key=%s custom=%s outlen=%d' % (kind, hx(pattern(rng, rng.choice([0, 16, 20]))), hx(pattern(rng, cu)), ol),
                         'sp.squeeze kind=%s obj=1 n=%d' % (kind, rng.choice([8, 32, 40])), 'sp.squeeze kind=%s obj=1 n=5' % kind,
                         'sp.init kind=%s obj=1 re=1 key=%s custom=%s outlen=%d' % (kind, hx(pattern(rng, 16)), hx(pattern(rng, cu)), ol), 'sp.squeeze kind=%s obj=1 n=33' % kind,
